@@ -30,13 +30,13 @@ FORMS = [
     ("empty-triple", ['""""""'], None),
     ("two-triples-one-line", ["'''a''' + \"\"\"b\"\"\""], None),
     ("four-quotes", ["''''x'''"], None),
-    ("multiline-triple-dq", ['"""p', "   q", '\tr"""'], None),
+    ("multiline-triple-dq", ['"""p %> }', "   q", '\tr"""'], None),  # with the closing tokens of <% %> and ${} inside
     ("multiline-triple-sq", ["'''p", "             q '''"], None),  # interior line indented deeper than any margin
     ("multiline-triple-split", ['"""', "        q", '""" + \'z\''], None),
     ("multiline-triple-with-hash", ['"""# p', "#q\"\"\""], None),
     ("multiline-triple-dq-containing-triple-sq", ['"""it\'s \'\'\'', '  x"""'], None),
     ("multiline-triple-containing-backslash-eol", ['"""p \\\\', '  q"""'], None),
-    ("backslash-newline-inside-string", ["'ab\\", "  cd'"], None),
+    ("backslash-newline-inside-string", ["'ab %> }\\", "  cd'"], None),  # with the closing tokens of <% %> and ${} inside
     # an ordinary string continued by backslashes over 3 / 4 physical lines whose middle line(s) start with '#'
     # (string content, not comments); the last line starts with whitespace deeper than any margin / with a TAB
     ("backslash-continued-sq-string-3-lines-hash-line", ["'a\\", "# b\\", "             c'"], None),
@@ -262,13 +262,17 @@ def template_for(lines, margin, unit, first_same, eol, pos):
         code = opener + body[0] + eol + eol.join(body[1:]) + (eol if len(body) > 1 else "") + "%>"
     else:
         code = opener + eol + eol.join(body) + eol + "%>"
-    obs = "${" + OBSERVE + "}"
-    if pos in ("body", "module"):
+    obs = "[[${" + OBSERVE + "}]]"
+    if pos == "body":
+        # template text with an odd number of each quote character around and after the observation: a scanner that
+        # lost track of a string literal inside the block runs on into this text
+        return pre + code + eol + '<i title="' + obs + "\">it's</i> ${'\"'}" + eol
+    if pos == "module":
         return pre + code + eol + obs + eol
     if pos == "ctl":
         return pre + "% if True:" + eol + "% for q9 in (1,):" + eol + code + eol + obs + eol + "% endfor" + eol + "% endif" + eol
     if pos == "def":
-        return '<%def name="d19()">' + pre + code + eol + obs + "</%def>${d19()}" + eol
+        return '<%def name="d19()">' + pre + code + eol + obs + " it's</%def>${d19()}" + eol
     raise AssertionError(pos)
 
 
